@@ -104,13 +104,16 @@ type lblock struct {
 }
 
 type builder struct {
-	g        *Graph
-	noReturn NoReturn
-	cur      *Vertex // nil means unreachable
-	targets  *targets
-	labels   map[string]*lblock
-	ret      *retCtx // non-nil inside the spliced body of an immediately invoked literal
-	synth    []*Vertex // assignments made from the return statements of spliced literals
+	g         *Graph
+	noReturn  NoReturn
+	cur       *Vertex // nil means unreachable
+	targets   *targets
+	labels    map[string]*lblock
+	ret       *retCtx                 // non-nil inside the spliced body of an immediately invoked literal
+	synth     []*Vertex               // assignments made from the return statements of spliced literals
+	litDefers []*ast.DeferStmt        // top-level defers of the spliced literal being built, in source order
+	litTop    map[*ast.DeferStmt]bool // the top-level defers of spliced literals
+	temps     map[string]ast.Expr     // hoisted boolean temporaries (see boolTemps)
 }
 
 // retCtx says what a return statement means inside the body of an
@@ -125,7 +128,7 @@ type retCtx struct {
 // New builds the graph of body.
 func New(fset *token.FileSet, body *ast.BlockStmt, noReturn NoReturn) *Graph {
 	g := &Graph{Fset: fset, Body: body, vertexOf: map[ast.Node]*Vertex{}}
-	b := &builder{g: g, noReturn: noReturn, labels: map[string]*lblock{}}
+	b := &builder{g: g, noReturn: noReturn, labels: map[string]*lblock{}, temps: boolTemps(body)}
 	g.Entry = b.newV(KEntry, nil)
 	g.Exit = b.newV(KExit, nil)
 	g.PanicExit = b.newV(KPanicExit, nil)
@@ -186,8 +189,13 @@ func (b *builder) thread() {
 						break
 					}
 				}
-				old.To = e.To
-				e.To.In = append(e.To.In, old)
+				// the path continues through a copy of the test that has only
+				// the branch known to be taken: the fact the test establishes
+				// stays visible to the guard engines on this path
+				nc := b.newV(KCond, c.Node)
+				old.To = nc
+				nc.In = append(nc.In, old)
+				b.edge(nc, e.To, want)
 				break
 			}
 			break
@@ -357,6 +365,12 @@ func (b *builder) stmt(s ast.Stmt, lb *lblock) {
 	case *ast.SendStmt, *ast.IncDecStmt, *ast.GoStmt, *ast.DeclStmt:
 		b.add(KStmt, s)
 	case *ast.DeferStmt:
+		if b.ret != nil && b.litTop[s] {
+			// a top-level defer of a spliced literal runs at every exit of
+			// the literal that is reached after this point (see runLitDefers)
+			b.litDefers = append(b.litDefers, s)
+			return
+		}
 		b.add(KDefer, s)
 	case *ast.ExprStmt:
 		if call, ok := s.X.(*ast.CallExpr); ok && b.noReturn != nil && b.noReturn(call) {
@@ -491,11 +505,29 @@ func (b *builder) cond(e ast.Expr, t, f *Vertex) {
 			return
 		}
 	case *ast.CallExpr:
-		if lit := iife(x); lit != nil && spliceable(lit) && boolResult(lit) {
+		if lit := iife(x); lit != nil && spliceable(lit) && boolResult(lit) && !hasDefer(lit) {
 			b.splice(lit, &retCtx{t: t, f: f})
 			return
 		}
 	case *ast.Ident:
+		// a hoisted comparison (`same := a == b; ... if same`) is tested
+		// as the comparison it names
+		// (in addition to the test of the name itself: after `same` was
+		// found true the comparison is evaluated with its false side
+		// leading nowhere, and vice versa, so that both the name and the
+		// atoms of its definition are facts of the branches)
+		if def, ok := b.temps[x.Name]; ok {
+			v := b.add(KCond, e)
+			tm, fm := b.join(), b.join()
+			b.edge(v, tm, ETrue)
+			b.edge(v, fm, EFalse)
+			b.cur = tm
+			b.cond(def, t, b.join())
+			b.cur = fm
+			b.cond(def, b.join(), f)
+			b.cur = nil
+			return
+		}
 		// the constant conditions a spliced `return true` / `return false` yields
 		if b.ret != nil && x.Obj == nil {
 			switch x.Name {
@@ -749,8 +781,21 @@ func spliceable(lit *ast.FuncLit) bool {
 		switch x := n.(type) {
 		case *ast.FuncLit:
 			return false
-		case *ast.DeferStmt, *ast.LabeledStmt:
+		case *ast.LabeledStmt:
 			ok = false
+		case *ast.DeferStmt:
+			// a defer is tied to the literal's own frame; the splice can
+			// honour it only when it is registered unconditionally, as a
+			// direct statement of the body, and defers a plain call
+			top := false
+			for _, st := range lit.Body.List {
+				if st == ast.Stmt(x) {
+					top = true
+				}
+			}
+			if _, isLit := x.Call.Fun.(*ast.FuncLit); !top || isLit {
+				ok = false
+			}
 		case *ast.BranchStmt:
 			if x.Tok == token.GOTO {
 				ok = false
@@ -763,6 +808,164 @@ func spliceable(lit *ast.FuncLit) bool {
 		return ok
 	})
 	return ok
+}
+
+// boolTemps finds the hoisted boolean temporaries of a function body: a name
+// that is defined exactly once in the whole body (nested literals included),
+// by `x := e` or `var x = e`, where e is built from comparisons and logical
+// operators over identifiers and literals only, none of which is ever
+// assigned, incremented or has its address taken anywhere in the body, and x
+// itself is never written again. Testing x then means testing e: nothing e
+// reads can have changed between the definition and the test. The analysis
+// is by name and therefore conservative (a second declaration of the name in
+// any scope disqualifies it).
+func boolTemps(body *ast.BlockStmt) map[string]ast.Expr {
+	defs := map[string]int{}      // declarations per name
+	written := map[string]bool{}  // assigned / incremented / address taken
+	cand := map[string]ast.Expr{} // name -> defining expression
+	declare := func(e ast.Expr) {
+		if id, ok := e.(*ast.Ident); ok && id.Name != "_" {
+			defs[id.Name]++
+		}
+	}
+	root := func(e ast.Expr) *ast.Ident {
+		for {
+			switch x := e.(type) {
+			case *ast.Ident:
+				return x
+			case *ast.ParenExpr:
+				e = x.X
+			case *ast.SelectorExpr:
+				e = x.X
+			case *ast.IndexExpr:
+				e = x.X
+			case *ast.StarExpr:
+				e = x.X
+			default:
+				return nil
+			}
+		}
+	}
+	ast.Inspect(body, func(n ast.Node) bool {
+		switch x := n.(type) {
+		case *ast.AssignStmt:
+			if x.Tok == token.DEFINE {
+				for i, l := range x.Lhs {
+					declare(l)
+					if id, ok := l.(*ast.Ident); ok && len(x.Lhs) == len(x.Rhs) {
+						cand[id.Name] = x.Rhs[i]
+					}
+				}
+			} else {
+				for _, l := range x.Lhs {
+					if id := root(l); id != nil {
+						written[id.Name] = true
+					}
+				}
+			}
+		case *ast.IncDecStmt:
+			if id := root(x.X); id != nil {
+				written[id.Name] = true
+			}
+		case *ast.UnaryExpr:
+			if x.Op == token.AND {
+				if id := root(x.X); id != nil {
+					written[id.Name] = true
+				}
+			}
+		case *ast.RangeStmt:
+			if x.Tok == token.DEFINE {
+				if x.Key != nil {
+					declare(x.Key)
+				}
+				if x.Value != nil {
+					declare(x.Value)
+				}
+			} else {
+				for _, l := range []ast.Expr{x.Key, x.Value} {
+					if l != nil {
+						if id := root(l); id != nil {
+							written[id.Name] = true
+						}
+					}
+				}
+			}
+		case *ast.ValueSpec:
+			for i, id := range x.Names {
+				declare(id)
+				if len(x.Values) == len(x.Names) {
+					cand[id.Name] = x.Values[i]
+				}
+			}
+		case *ast.FuncLit:
+			for _, fl := range [](*ast.FieldList){x.Type.Params, x.Type.Results} {
+				if fl == nil {
+					continue
+				}
+				for _, f := range fl.List {
+					for _, id := range f.Names {
+						declare(id)
+					}
+				}
+			}
+		case *ast.TypeSwitchStmt:
+			if as, ok := x.Assign.(*ast.AssignStmt); ok {
+				for _, l := range as.Lhs {
+					declare(l)
+					declare(l) // one object per clause: never a temporary
+				}
+			}
+		}
+		return true
+	})
+	var pure func(e ast.Expr, top bool) bool
+	pure = func(e ast.Expr, top bool) bool {
+		switch x := e.(type) {
+		case *ast.ParenExpr:
+			return pure(x.X, top)
+		case *ast.BinaryExpr:
+			switch x.Op {
+			case token.EQL, token.NEQ, token.LSS, token.LEQ, token.GTR, token.GEQ, token.LAND, token.LOR:
+				return pure(x.X, false) && pure(x.Y, false)
+			}
+			return false
+		case *ast.UnaryExpr:
+			return x.Op == token.NOT && pure(x.X, false)
+		case *ast.BasicLit:
+			return !top
+		case *ast.Ident:
+			if top {
+				return false
+			}
+			return x.Name == "nil" || x.Name == "true" || x.Name == "false" || (!written[x.Name] && defs[x.Name] <= 1)
+		}
+		return false
+	}
+	out := map[string]ast.Expr{}
+	for name, e := range cand {
+		if defs[name] == 1 && !written[name] && pure(e, true) {
+			out[name] = e
+		}
+	}
+	return out
+}
+
+// runLitDefers emits, at an exit of a spliced literal, the calls its
+// top-level defers registered so far, last one first.
+func (b *builder) runLitDefers() {
+	for i := len(b.litDefers) - 1; i >= 0 && b.cur != nil; i-- {
+		d := b.litDefers[i]
+		b.add(KStmt, &ast.ExprStmt{X: d.Call})
+	}
+}
+
+func hasDefer(lit *ast.FuncLit) bool {
+	for _, st := range lit.Body.List {
+		if _, ok := st.(*ast.DeferStmt); ok {
+			return true
+		}
+	}
+	return false
 }
 
 func boolResult(lit *ast.FuncLit) bool {
@@ -778,10 +981,28 @@ func boolResult(lit *ast.FuncLit) bool {
 // where its return statements lead (nil: they are returns of the function).
 func (b *builder) splice(lit *ast.FuncLit, rc *retCtx) {
 	savedRet, savedTargets, savedLabels := b.ret, b.targets, b.labels
+	savedDefers := b.litDefers
+	b.litDefers = nil
+	if rc != nil {
+		// (rc == nil: the literal's exits are exits of the function, its
+		// defers are defers of the function registered last, run first)
+		if b.litTop == nil {
+			b.litTop = map[*ast.DeferStmt]bool{}
+		}
+		for _, st := range lit.Body.List {
+			if d, ok := st.(*ast.DeferStmt); ok {
+				b.litTop[d] = true
+			}
+		}
+	}
+	defer func() { b.litDefers = savedDefers }()
 	b.ret, b.targets, b.labels = rc, nil, map[string]*lblock{}
 	b.stmtList(lit.Body.List)
 	if b.cur != nil {
 		// falling off the end of a literal without results
+		if rc != nil {
+			b.runLitDefers()
+		}
 		switch {
 		case rc == nil:
 			r := b.newV(KReturn, nil)
@@ -811,11 +1032,13 @@ func (b *builder) spliced(s *ast.ReturnStmt, rc *retCtx) {
 		// value was used in
 		v := b.add(KStmt, &ast.AssignStmt{Lhs: rc.assign.Lhs, TokPos: s.Return, Tok: rc.assign.Tok, Rhs: s.Results})
 		b.synth = append(b.synth, v)
+		b.runLitDefers()
 		b.jump(rc.cont)
 	default:
 		for _, r := range s.Results {
 			b.add(KStmt, &ast.ExprStmt{X: r})
 		}
+		b.runLitDefers()
 		b.jump(rc.cont)
 	}
 }
